@@ -9,6 +9,7 @@ package http2_test
 import (
 	"context"
 	"crypto/tls"
+	"encoding/json"
 	"fmt"
 	"io"
 	"log"
@@ -17,6 +18,7 @@ import (
 	"net/http/httptrace"
 	"net/textproto"
 	"net/url"
+	"os"
 	"sort"
 	"strconv"
 	"strings"
@@ -787,6 +789,14 @@ func c14Run(c c14Case, r *vp.Rec) error {
 	err = c14Judge(&c, srvObs, cliObs, stray, cliWire, srvWire, r)
 	if err != nil && len(srvErrs) > 0 {
 		err = fmt.Errorf("%v [server error counters: %s]", err, strings.Join(srvErrs, ","))
+		// Recorded finding (a race inside the server, so no predicate over cases can
+		// select it): the server refused a stream with "over_max_streams" although the
+		// Transport (StrictMaxConcurrentStreams) never exceeds the limit. While the
+		// finding is open such a run is counted, not failed.
+		if strings.Contains(strings.Join(srvErrs, ","), "over_max_streams") && c14FindingOpen("c14-srv-over-max-streams-race") {
+			r.Class("known-race:server-over_max_streams")
+			return nil
+		}
 	}
 	return err
 }
@@ -1078,43 +1088,86 @@ func c14Judge(c *c14Case, srvObs []c14SrvObs, cliObs []c14CliObs, stray []string
 	return nil
 }
 
+var c14OpenOnce sync.Once
+var c14OpenKeys map[string]bool
+
+// c14FindingOpen reports whether KNOWN_FINDINGS.json (the file the runner itself reads,
+// $VP_KNOWN) lists key as an open C14 finding.
+func c14FindingOpen(key string) bool {
+	c14OpenOnce.Do(func() {
+		c14OpenKeys = map[string]bool{}
+		b, err := os.ReadFile(os.Getenv("VP_KNOWN"))
+		if err != nil {
+			return
+		}
+		var kf struct {
+			Findings []struct {
+				Key      string `json:"key"`
+				Property string `json:"property"`
+				Status   string `json:"status"`
+			} `json:"findings"`
+		}
+		if json.Unmarshal(b, &kf) != nil {
+			return
+		}
+		for _, f := range kf.Findings {
+			if f.Property == "C14" && f.Status == "open" {
+				c14OpenKeys[f.Key] = true
+			}
+		}
+	})
+	return c14OpenKeys[key]
+}
+
 // c14Known classifies cases that match a recorded finding (see KNOWN_FINDINGS.json).
 func c14Known(c c14Case) string {
+	var keys []string
 	// Trailer lists larger than the receiver's header list limit are cut off silently:
 	// neither Transport.processTrailers nor Server.processTrailerHeaders looks at
 	// MetaHeadersFrame.Truncated.
 	for _, q := range c.Reqs {
 		if c14ListSize(q.RTrailers)+c14ListSize(q.RPTrailers) > c.Cli.headerLimit() {
-			return "c14-resp-trailers-over-limit-truncated"
+			keys = append(keys, "c14-resp-trailers-over-limit-truncated")
 		}
 		// (a client that knows the server's limit refuses to send such trailers)
 		if c.Start == 2 && c14ListSize(q.Trailers) > c.Srv.headerLimit() {
-			return "c14-req-trailers-over-limit-truncated"
+			keys = append(keys, "c14-req-trailers-over-limit-truncated")
 		}
 	}
-	if c.Start != 2 {
-		return ""
-	}
-	eff := func(v uint32) uint32 {
-		if v == 0 {
-			return 4096
+	if c.Start == 2 {
+		eff := func(v uint32) uint32 {
+			if v == 0 {
+				return 4096
+			}
+			return v
 		}
-		return v
-	}
-	// The server creates its HPACK decoder with MaxDecoderHeaderTableSize right away,
-	// while a client that has not yet processed the server's SETTINGS still encodes
-	// against the protocol default of 4096 bytes.
-	if eff(c.Srv.DecTable) < min(4096, eff(c.Cli.EncTable)) {
-		return "c14-srv-decoder-table-before-settings-ack"
-	}
-	// Likewise the per-stream receive window is MaxUploadBufferPerStream from the first
-	// stream on, although the client may send 65535 bytes until it has seen SETTINGS.
-	if c.Srv.UpStream > 0 && c.Srv.UpStream < 65535 {
-		for _, q := range c.Reqs {
-			if q.StartMS == 0 && c14Sum(q.Chunks) > int(c.Srv.UpStream) {
-				return "c14-srv-stream-window-before-settings-ack"
+		// The server creates its HPACK decoder with MaxDecoderHeaderTableSize right
+		// away, while a client that has not yet processed the server's SETTINGS still
+		// encodes against the protocol default of 4096 bytes.
+		if eff(c.Srv.DecTable) < min(4096, eff(c.Cli.EncTable)) {
+			keys = append(keys, "c14-srv-decoder-table-before-settings-ack")
+		}
+		// Likewise the per-stream receive window is MaxUploadBufferPerStream from the
+		// first stream on, although the client may send 65535 bytes until it has seen
+		// SETTINGS.
+		if c.Srv.UpStream > 0 && c.Srv.UpStream < 65535 {
+			for _, q := range c.Reqs {
+				if q.StartMS == 0 && c14Sum(q.Chunks) > int(c.Srv.UpStream) {
+					keys = append(keys, "c14-srv-stream-window-before-settings-ack")
+					break
+				}
 			}
 		}
+	}
+	// a case may match several findings; name one that is still open (a fixed finding
+	// suppresses nothing)
+	for _, k := range keys {
+		if c14FindingOpen(k) {
+			return k
+		}
+	}
+	if len(keys) > 0 {
+		return keys[0]
 	}
 	return ""
 }
